@@ -83,20 +83,27 @@ class SxDict:
                 self._h[k] = i
 
     def __contains__(self, key):
-        if _symbolic_key(key):
-            # membership only: one decision on the disjunction instead of one fork per key
-            conds = []
-            for k in self._k:
-                r = keys_equal(k, key)
-                if r is True:
+        """membership only: one decision on a disjunction instead of one fork per key"""
+        sym = _symbolic_key(key)
+        if not sym:
+            try:
+                if key in self._h:
                     return True
-                if r is False:
-                    continue
-                conds.append(r)
-            if not conds:
-                return False
-            return bool(core.Or(*conds))
-        return self._find(key) >= 0
+            except TypeError:
+                pass
+        conds = []
+        for k in self._k:
+            if not sym and not _symbolic_key(k):
+                continue
+            r = keys_equal(k, key)
+            if r is True:
+                return True
+            if r is False:
+                continue
+            conds.append(r)
+        if not conds:
+            return False
+        return bool(core.Or(*conds))
 
     def __getitem__(self, key):
         i = self._find(key)
@@ -229,41 +236,69 @@ class SxDict:
 
 
 class SxSet:
-    __slots__ = ('_d',)
+    """set over possibly symbolic members.  Symbolic members are stored without eager
+    de-duplication (membership is a disjunction); len/iteration de-duplicate on demand."""
+    __slots__ = ('_d', '_lazy')
 
     def __init__(self, it=()):
         self._d = SxDict()
+        self._lazy = []
         for x in it:
-            self._d[x] = True
+            self.add(x)
 
     def add(self, x):
-        self._d[x] = True
+        if _symbolic_key(x):
+            self._lazy.append(x)
+        else:
+            self._d[x] = True
+
+    def _settle(self):
+        if self._lazy:
+            lz, self._lazy = self._lazy, []
+            for x in lz:
+                self._d[x] = True
 
     def discard(self, x):
+        self._settle()
         self._d.pop(x, None)
 
     def remove(self, x):
+        self._settle()
         del self._d[x]
 
     def __contains__(self, x):
-        return x in self._d
+        if x in self._d:
+            return True
+        conds = []
+        for k in self._lazy:
+            r = keys_equal(k, x)
+            if r is True:
+                return True
+            if r is False:
+                continue
+            conds.append(r)
+        return bool(core.Or(*conds)) if conds else False
 
     def __iter__(self):
+        self._settle()
         return iter(self._d)
 
     def __len__(self):
+        self._settle()
         return _len(self._d)
 
     def __bool__(self):
-        return bool(self._d)
+        return bool(self._d) or bool(self._lazy)
 
     def copy(self):
         s = SxSet()
         s._d = self._d.copy()
+        s._lazy = list(self._lazy)
         return s
 
     def restore_from(self, other):
         self._d.restore_from(other._d)
+        self._lazy = list(other._lazy)
 
     def update(self, it):
         for x in it:
@@ -271,6 +306,7 @@ class SxSet:
 
     def clear(self):
         self._d.clear()
+        self._lazy = []
 
     def __or__(self, o):
         s = self.copy()
@@ -297,7 +333,7 @@ class SxSet:
     __hash__ = None
 
     def __repr__(self):
-        return 'SxSet(%r)' % (list(self._d),)
+        return 'SxSet(%r)' % (list(self._d) + self._lazy,)
 
 
 def sx_dict_literal(pairs):
@@ -544,7 +580,13 @@ TYPE_MAP[_rope.Rope] = _rope.SxBytes
 register_shim(builtins.bytearray, _rope.SxByteArrayType)
 TYPE_MAP[_rope.ByteArray] = _rope.SxByteArrayType
 
+from . import text as _text  # noqa: E402
+
+register_shim(builtins.str, _text.SxStr)
+TYPE_MAP[_text.Text] = _text.SxStr
+
 SHIM_BUILTINS = {
+    'str': _text.SxStr,
     'bytes': _rope.SxBytes,
     'bytearray': _rope.SxByteArrayType,
     'int': SxInt,
